@@ -118,6 +118,8 @@ type world struct {
 	forged  []string
 	stats   struct{ flows, fuzz int }
 	fl      *inflight
+	fr      *rand.Rand                 // error-value stream of the storage faults (storerr.go)
+	seen    map[string]map[string]bool // operation -> storage methods journaled for it in this world
 }
 
 var endpointNames = []string{"authorize", "callback", "token", "introspect", "userinfo", "revoke", "end_session", "keys", "device_authorization", "discovery", "healthz", "ready"}
